@@ -89,6 +89,17 @@ Theorem C16_failure_releases_reservations :
 Proof. exact host_failure_releases. Qed.
 Print Assumptions C16_failure_releases_reservations.
 
+(** The call trace of any failed run of the repaired handlers has the shape the checker
+    accepts for a failed attempt whatever the stage of the refusal: calls in handler order,
+    stopping at the first failing call, nothing recorded / pooled / broadcast, exactly the
+    funded inputs released. *)
+Theorem C16_failure_trace_admissible :
+  ∀ k e h m1 m2,
+    ho_ok (host_run true k e h m1 m2) = false →
+    admissible_failure k (ho_calls (host_run true k e h m1 m2)) = true.
+Proof. exact host_failure_admissible. Qed.
+Print Assumptions C16_failure_trace_admissible.
+
 (** ... and the renter's: nothing it reserved stays locked; the locked set is the old one
     up to ids the host side named as its inputs (the function releases those too), hence
     equal to it when the host named none of the renter's locked outputs. *)
